@@ -399,3 +399,5 @@ PROPS["C06"]["kani"].append([h for h in PROPS["C17"]["kani"] if h.name == "c17_b
 PROPS["C13"]["mir"].append(ob("observer_requests_typed", "ob_worker", "observer_requests_typed"))
 PROPS["C12"]["mir"].append(ob("observer_requests_typed_c12", "ob_worker", "observer_requests_typed"))
 PROPS["C13"]["mir"].append(ob("storage_background_requests", "ob_worker", "storage_background_requests"))
+PROPS["C13"]["mir"].append(ob("storage_close_dumps", "ob_worker", "storage_close_dumps"))
+PROPS["C12"]["mir"].append(ob("storage_close_dumps_c12", "ob_worker", "storage_close_dumps"))
